@@ -65,6 +65,86 @@ reg("C22", "exploration",
     "modes; finding multisets (whole-program ids included) and exit status must be equal.",
     "Small grammar; reference is the same binary's in-memory whole-program analysis. Known finding: staticFunction is never produced from stored summaries.")
 
+reg("C31", "exploration",
+    "bounded-exhaustive differential of PathMatch::match (in-process harness linked with the real objects) against a reference model written from the documented rule list, plus exhaustive small-tree / pattern-list enumeration through the real CLI",
+    "All patterns of length <=4 (quick) / <=5 (thorough) over {a,b,.,/,*,?} x all paths of length <=5/<=6 over {a,b,.,/} x file modes x three base "
+    "directories (1.3e7 / 3.1e8 pairs) are compared bit by bit with the reference; the real binary is run on a 49-file tree with every list of <=2 of 13 "
+    "patterns as -i / --file-filter / both under 6 input spellings, on every tree of <=3/<=4 entries under different readdir orders, and with "
+    "--suppress file patterns; selection, order, de-duplication and canonical reporting must equal the reference.",
+    "Pairs the rule list does not determine (empty or root pattern, '..' past the start or after a glob) are counted, not judged. Extension list from "
+    "--help. readdir order is controlled through tmpfs creation order. Trusted: vlib/ref_pathmatch.py. Four known findings.")
+reg("C32", "exploration",
+    "exhaustive enumeration of compilation-database entries, hundreds per run of the real binary, differential against shlex + a GCC option table cross-checked against the installed gcc",
+    "Every ordered selection of <=2 (quick) / <=3 (thorough) of 21 option items x 3 compiler paths x 5 source-path forms x 6 entry forms, plus "
+    "same-file entry pairs; one -v run and one -E run per 400 entries observe each entry's defines, undefines, ordered include paths, macro values "
+    "and standard; all must equal the reference.",
+    "-isystem optional; -fPIC/-fpie/-municode macros allowed; -D/-U relative order not judged; standard only judged when it matches the file's language. "
+    "Trusted: the option table and shlex. Six known findings.")
+reg("C26", "exploration",
+    "bounded-exhaustive finding sets injected through a scripted addon (hundreds per run) plus real findings in hostile-named files, each report checked against a single-pass reference renderer, a RelaxNG-subset interpreter and a SARIF decoder",
+    "For message, verbose, location info, file name and symbol each, every string of <=2 (thorough <=3) tokens over 14 characters plus the 12 template "
+    "field names, and a structural core set, are pushed through the real StdLogger path with the default and 7 predefined templates, every single "
+    "documented field, every field before/after {message} (thorough: ordered pairs and triples), template-location sets, -v, --output-file and duplicate "
+    "filter on/off. Text must equal the reference byte for byte; XML must be well-formed, validate against cppcheck-errors.rng and decode field by "
+    "field; SARIF must be valid UTF-8 JSON with one result per finding carrying ruleId, mapped level, message and locations.",
+    "Small scope (<=3 tokens per text, one field varied at a time). Unspecified template behaviour is taken from cppcheck; checkersReport matched by "
+    "shape. Trusted: reference renderer, RNG interpreter. Eight known findings.")
+reg("C36", "exploration",
+    "bounded-exhaustive enumeration of version-2 result files rendered in-process by cppcheck-htmlreport, every generated page parsed and compared with the XML itself",
+    "Every results file with one finding over id x severity x inconclusive x cwe x 34 location shapes (6 file kinds incl. nonexistent, directory and "
+    "undecodable source; lines 0/1/last/past end) x plain/markup message x source-dir modes, every message/info string of <=2 (thorough <=3) tokens over "
+    "13 tokens, and every sequence of <=3 (thorough <=4) findings over a 10-finding alphabet is rendered by the real script; index and per-file pages "
+    "must list each finding exactly once with file, line, id, severity and a message whose parsed text equals the original and contains no element.",
+    "Small scope. Location info is accepted as annotation text; secondary-location annotations optional. Trusted: html.parser tree builder. Three known findings.")
+
+reg("C20", "fault_enumeration",
+    "exhaustive crash-point and torn-write enumeration from the recorded syscall trace of the real run, bound to the implementation by full-trace replay and real SIGKILLs",
+    "For the pre-states {empty, complete run on the same inputs, complete run on older inputs} the mutating-syscall trace of the real run with "
+    "--cppcheck-build-dir is recorded with strace; every prefix (and byte-prefixes of cache-file writes: every 7th offset for the re-written cache "
+    "files in quick, every offset in thorough) is materialised and the complete command run on it; it must equal the run without build dir. Binding: "
+    "the full replay must reproduce the real final directory and really killed runs (strace signal injection) must leave an enumerated state.",
+    "Process-kill model (completed syscalls persist); -j1 traces only. Trusted: strace output parser and the 60-line replayer (validated each run).")
+reg("C29", "model_checking",
+    "exhaustive enumeration of the environment's answers (heap layout via an LD_PRELOAD allocator, ASLR, environment size, readdir order) over a corpus, byte-level differential",
+    "Every input of the corpus (samples/*/bad.c*, multi-scope programs; thorough: test/cfg std.c std.cpp posix.c) x job counts x every combination of "
+    "allocator {glibc, bump-down (reverses address order), bump-up, pad16, pad4096} x ASLR {on, off} (x environment size in thorough) must give "
+    "byte-identical findings in identical order and identical --dump after id renaming (multiset for -j2); every creation order of a 4-file tree (tmpfs "
+    "readdir order) must give identical output and files.txt.",
+    "Corpus-bound on the input axis, exhaustive on the environment axis. Trusted: native/valloc.c, id normaliser.")
+reg("C23", "exploration",
+    "bounded-exhaustive enumeration of the suppression x finding product against a documentation-derived reference model, batched in independent cells",
+    "Every element of {7 id patterns} x {21 file patterns} x {4 line classes} x {5 symbol classes} for 3 target findings through --suppress= / "
+    "--suppressions-list / --suppress-xml with relative and absolute inputs, every inline form of the manual (1857 functions and files) and the same "
+    "entries as exitcode-suppressions is run through the real binary; reported set == unsuppressed findings minus those vlib/ref_suppress.py hides.",
+    "Small scope: one suppression per cell; single-location findings; (absolute pattern, relative file) unconstrained because the base path is "
+    "undocumented; invalid syntax only 'must not hide silently'. Trusted: ref_suppress.py, supcells.py. Three known findings.")
+reg("C24", "exploration",
+    "pairwise exhaustive enumeration of suppression classes against rules R1-R5, differential single/thread/process, plus deviation-bounded schedules",
+    "All singles and pairs over 21 command-line/XML and 15 inline suppression classes and 10 id-only ids, each under three executors; R1-R5 decided by "
+    "bipartite matching of reports to suppressions; report multisets equal across executors; scheduler shim default schedule (quick) / bound 1 (thorough).",
+    "R3 deliberately minimal (id:file:line, symbol, -file/-macro, header-only patterns: R1/R2 only). C15 covers schedules in general. Two known findings.")
+reg("C25", "exploration",
+    "complete enumeration of the option lattice with the statement as oracle on the run's own output",
+    "inputs(11) x error-exitcode{absent,0,1,7} x exitcode-suppressions(4) x executor(3) x format(2) + cached replay (second run on a build dir) + 10 "
+    "invalid command lines; status == exitcode iff a reported finding (checkersReport excluded) is not matched by an entry (C23 reference), else 0; "
+    "invalid => 1.",
+    "Default schedules only (C15/C21 explore them); --safety excluded by the statement. One known finding.")
+reg("C30", "exploration",
+    "bounded-exhaustive enumeration of <valid> expressions against a reference interpretation of the cfg manual (in-process seam + real binary), plus complete single-edit mutation neighbourhood of a schema-covering seed cfg under ASan/UBSan",
+    "Every <valid> list with 1-2 items (72 items over 9 integer, negative and float bounds) and 3-item lists (quick: 30 items; thorough: all) is evaluated for "
+    "all integer arguments -4..12 and float arguments on a 0.25 grid through Library::isIntArgValid/isFloatArgValid of the tree's objects; every 1-2 item "
+    "list x 31 constants goes through the real binary; not-null / not-bool forms; every single-edit (thorough: two-edit) mutant of a seed cfg holding "
+    "every element and attribute of cppcheck-cfg.rng, and every shipped cfg, loads to OK-or-error under ASan+UBSan.",
+    "Small scope; reversed ranges and !v not judged; load mutants are structural edits of one seed. Trusted: 20-line reference predicate, harness. "
+    "Known findings: int/float item mixing, load crashes on empty text / non-integer attributes (one key per element path).")
+reg("C34", "exploration",
+    "bounded-exhaustive enumeration of scripted addon outputs (stub addon via the executable key) through the real binary, judged by a reference relay model",
+    "All outputs of <=2 lines over 59 line kinds for the per-file and the whole-program invocation x exit {0,1,139} x --enable x suppression x build dir "
+    "{no, fresh, cached} x executor {single, thread -j2, process -j2} (quick: single lines, valid-result pairs, full configuration product on one "
+    "representative output); malformed kinds also on the ASan+UBSan binary. Oracle: no crash/hang/sanitizer report; every enabled, unsuppressed "
+    "well-formed result exactly once with id, severity, message, locations; summaries reach the whole-program stage.",
+    "Judged severities: error..information. Thorough is deadline-capped. Trusted: stub, 60-line expectation function. One known finding.")
+
 ALL = ["C%02d" % i for i in range(1, 37)]
 
 
